@@ -72,7 +72,8 @@ def _manager(T, state, log):
             T.under_contract(sh, M, "PluginManager." + q)
     else:
         cls = T.func(M, "PluginManager")
-    mgr = object.__new__(cls)
+    # made by its real constructor (whatever state it sets up is the state the operations run in), then given the registry of the case
+    mgr = cls()
     plugs = {n: FakePlugin(T, n, log) for n in state}
     other = FakePlugin(T, "other", log)
     mgr._plugins = {"optimizer": {n: plugs[n] for n in state}, "sampler": {"z": other}, "realization_filter": {}, "function_estimator": {}, "plan_handler": {}, "plan_step": {}}
@@ -283,6 +284,20 @@ def scn_isolation(T, case):
     except ConfigError:
         ok = False
     T.prove("C19.isolation.name_taken_on_one_manager_is_free_on_another", ok)
+    # two managers alive at the same time with different registries, queried alternately with no registration in between: every
+    # answer is the manager's own (is_supported agrees with that manager's lookup), in both orders
+    only1 = FakePlugin(T, "only1", log)
+    m1.add_plugin("optimizer", "only1", only1)
+    for order in ((m1, m2), (m2, m1)):
+        for mgr in order:
+            for method in ("only1/alpha", "gamma"):
+                sup = mgr.is_supported("optimizer", method)
+                try:
+                    mgr.get_plugin("optimizer", method)
+                    found = True
+                except ConfigError:
+                    found = False
+                T.prove("C19.isolation.is_supported_is_the_managers_own_lookup_whatever_other_managers_were_asked", bool(sup) == found, "%s on %s" % (method, "m1" if mgr is m1 else "m2"))
     # discovery flags of the built-in plug-ins
     from ropt.plugins.base import Plugin
     from ropt.plugins.optimizer.external import ExternalOptimizerPlugin
